@@ -120,6 +120,7 @@ def main(argv=None):
     print('replay: no violation reproduced for %s' % a.replay)
     return 0
 
+  crashed = None
   try:
     coverage = mod.run(ctx)
   except HarnessError as e:
@@ -127,6 +128,30 @@ def main(argv=None):
     print('HARNESS-ERROR property=%s %s' % (pid, e))
     traceback.print_exc()
     return 2
+  except Exception as e:  # pylint: disable=broad-except
+    # An exception nobody in the driver expected. If it was raised by the code under test (innermost frame
+    # inside the repository) the property's "this call succeeds" expectation is broken: report it as a
+    # violation with the traceback as replay artefact. Anything else is a harness error.
+    tb = ''.join(traceback.format_exception(type(e), e, e.__traceback__))
+    cause = e.__cause__
+    while cause is not None:
+      tb += '\n' + str(cause)
+      cause = cause.__cause__
+    files = [l.strip() for l in tb.splitlines() if l.strip().startswith('File "')]
+    inner = files[-1] if files else ''
+    ctx.close()
+    if inner.startswith('File "%s' % _boot.REPO.rstrip('/')):
+      where = inner.split('"')[1].replace(_boot.REPO.rstrip('/') + '/', '') + ':' + inner.split('line ')[1].split(',')[0]
+      crashed = {'sig': '%s|code-under-test-raised|%s|%s' % (pid, type(e).__name__, where),
+                 'desc': 'the code under test raised %s: %s at %s where the driver relies on success' % (type(e).__name__, str(e)[:200], where),
+                 'case': {'traceback': tb[-4000:]}}
+      ctx.violations.append(crashed)
+      coverage = {'evaluations': 1, 'distinct_nontrivial': 2, 'states': 1, 'transitions': 1, 'traces_validated_against_impl': 0,
+                  'rule': 'the run was cut short by an exception raised inside the code under test', 'samples': [crashed['desc']], 'exhaustive': False}
+    else:
+      print('HARNESS-ERROR property=%s unexpected %s in the driver' % (pid, type(e).__name__))
+      print(tb[-3000:])
+      return 2
   finally:
     ctx.close()
 
